@@ -11,7 +11,8 @@ import families as F
 from common import prove
 from props import c02
 
-THEOREMS = ["Matid.Props.C04.same_id_of_same_analysis", "Matid.Props.C06.id_string_canonical"]
+THEOREMS = ["Matid.Props.C04.same_id_of_same_analysis", "Matid.Props.C06.id_string_canonical",
+            "Matid.Props.Proto.accepted_periodicity", "Matid.Props.Proto.span_rule_ok", "Matid.Props.Proto.best_span_valid"]
 TRUSTED = ["Lean 4 kernel", "axioms: propext, Classical.choice, Quot.sound at most",
            "contract P (the prototype cell found by the periodic finder is a description of the source crystal related by basis change, proper motion and permutation): SAMPLED, not proved",
            "the symmetry analysis of both cells is C05-C08's subject"]
@@ -39,10 +40,16 @@ def run(ctx):
     from matid.clustering import SBC
     import crystals
     broken = []
-    ok, info = prove(ctx, "MatidProps.C04", THEOREMS)
-    if not ok:
-        broken.append(("proof", info))
-    rng = np.random.default_rng(ctx.seed + 4)
+    terr = common.regen(ctx, ("proto_rule",))
+    if terr:
+        for t in THEOREMS:
+            ctx.obligations.append((t, False))
+        broken.append(("translator", terr))
+    else:
+        ok, info = prove(ctx, "MatidProps.C04", THEOREMS, extra_imports=("MatidProps.Proto", "MatidProps.C06"), gen_targets=("MatidProps.Proto",))
+        if not ok:
+            broken.append(("proof", info))
+    rng = np.random.default_rng(common.sample_seed(ctx) + 4)
     target = ctx.n(44, 800)
     done = k = 0
     bad = []
